@@ -1,6 +1,7 @@
 """C09 - operation invocations follow the BICEPS invocation-state protocol end to end (DESIGN.md section 4, C09)."""
 import itertools
 import json
+import time
 
 from lib import coqlit
 
@@ -160,8 +161,17 @@ def lit_cons(events):
 ZLL, ZL = 'list (list Z)', 'list Z'
 
 
+def zlit(x):
+    """nested int lists as Coq terms in Z_scope (plain numerals parse much faster than (n)%Z)"""
+    if isinstance(x, bool):
+        raise TypeError('bool in a Z literal')
+    if isinstance(x, int):
+        return str(x) if x >= 0 else f'({x})'
+    return '[' + '; '.join(zlit(e) for e in x) + ']'
+
+
 def typed(x, ty):
-    return f'({coqlit(x)} : {ty})'
+    return f'({zlit(x)} : {ty})'
 
 
 def lit_cons_obs(ob):
@@ -485,6 +495,7 @@ def run(ctx):
 
     impl = ctx.impl('c09_impl', {'cons': [c['events'] for c in ccases], 'prov': pcases, 'conc': conc},
                     timeout=ctx.n(400, 3000))
+    ctx.log(f'implementation run finished at {time.time() - ctx.t0:.1f}s')
     if impl.get('_crash'):
         ctx.broken('correspondence', 'implementation run', impl['stderr'])
         return ctx.finish('implementation run crashed', [], [])
@@ -509,6 +520,7 @@ def run(ctx):
         model = ctx.coq_eval(HEADER, f'run_cons {lits[i][0]}')
         ctx.broken('correspondence', 'cons', {'disagreements': len(mism), 'first_case': ccases[i]['events'],
                                               'impl_trace': impl['cons'][i], 'model_trace': model[-2500:]})
+    ctx.log(f'consumer stream compared at {time.time() - ctx.t0:.1f}s')
     overflow = sum(1 for c, ob in zip(ccases, impl['cons']) if c['txs'] and any(p for p in ob['pend']))
     hist['left_pending_beyond_bound'] = overflow
     hist['report_before_response'] = sum(1 for c in ccases if c['txs'] and c['events'] and c['events'][0][0] == 'rep')
@@ -549,21 +561,27 @@ def run(ctx):
                      {'stream': 'prov', 'case': {'ops': [e[:7] for e in tr['events']]}, 'impl_trace': tr,
                       'oracle': {'verdict': 'fail', 'clause': clause, 'why': why}})
     plits = [(lit_prov_case(tr), lit_prov_obs(tr)) for tr in traces]
-    mism, err = ctx.coq_mism('prov', HEADER, 'prov_eqb', 'run_prov', plits, shard=60, deps=DEPS)
+    mism, err = ctx.coq_mism('prov', HEADER, 'prov2_eqb', 'run_prov2', [(a, f'({b}, true)') for a, b in plits],
+                             shard=60, deps=DEPS)
     if err:
         ctx.broken('correspondence', 'prov (coq evaluation)', err)
     if mism:
-        i = mism[0]
-        model = ctx.coq_eval(HEADER, f'run_prov {plits[i][0]}')
-        ctx.broken('correspondence', 'prov', {'disagreements': len(mism), 'first_case': [e[:7] for e in traces[i]['events']],
-                                              'impl_trace': {k: traces[i][k] for k in ('first_id', 'mv0', 'events', 'resps', 'reports', 'versions', 'pcounts')},
-                                              'model_trace': model[-2500:]})
-    twin, err = ctx.coq_mism('prov_twin', HEADER, 'Bool.eqb', 'check_prov', [(a, 'true') for a, _ in plits], shard=60, deps=DEPS)
-    if err:
-        ctx.broken('correspondence', 'prov_twin (coq evaluation)', err)
-    if twin:
-        ctx.broken('theorem', 'check_prov (boolean twin of C09_legal_sequence) is false on the model',
-                   {'cases': len(twin), 'first_case': [e[:7] for e in traces[twin[0]]['events']]})
+        # which half disagrees: the observation (correspondence) or the boolean twin of the theorem (model-level witness)
+        sub = [plits[i] for i in mism]
+        obs_mism, err2 = ctx.coq_mism('prov_obs', HEADER, 'prov_eqb', 'run_prov', sub, shard=60, deps=DEPS)
+        if err2:
+            ctx.broken('correspondence', 'prov (coq evaluation)', err2)
+        if len(obs_mism) < len(mism):
+            j = [i for k, i in enumerate(mism) if k not in obs_mism][0]
+            ctx.broken('theorem', 'check_prov (boolean twin of C09_legal_sequence) is false on the model',
+                       {'cases': len(mism) - len(obs_mism), 'first_case': [e[:7] for e in traces[j]['events']]})
+        if obs_mism:
+            i = mism[obs_mism[0]]
+            model = ctx.coq_eval(HEADER, f'run_prov {plits[i][0]}')
+            ctx.broken('correspondence', 'prov', {'disagreements': len(obs_mism), 'first_case': [e[:7] for e in traces[i]['events']],
+                                                  'impl_trace': {k: traces[i][k] for k in ('first_id', 'mv0', 'events', 'resps', 'reports', 'versions', 'pcounts')},
+                                                  'model_trace': model[-2500:]})
+    ctx.log(f'provider stream compared at {time.time() - ctx.t0:.1f}s')
     ctx.count('prov', len(traces), [json.dumps([t['events'], t['resps'], t['reports']]) for t in traces], histogram=phist)
     if traces:
         ctx.sample({'stream': 'prov', 'ops': [e[:7] for e in traces[0]['events']], 'responses': traces[0]['resps'],
